@@ -225,7 +225,9 @@ class TableBasedBitCrcRegister(BitCrcRegister):
         See BitCrcRegisterBase._process_bits
         """
         if len(bits) == self._config.feed_width_bits:
-            table_index: int = ba2int(bits) ^ (
+            # the bit string is the index order of the bitarray, whatever its storage
+            # endianness (same order as the bit-by-bit register consumes it)
+            table_index: int = ba2int(bitarray(bits, endian="big")) ^ (
                 ba2int(self.register)
                 >> (self._config.width_bits - self._config.feed_width_bits)
             )
